@@ -585,11 +585,11 @@ pub fn run(ctx: &Ctx) {
     ctx.enumerate("F1-hostile-headers", hostile_headers(), false, &oracle);
     ctx.enumerate("F2-F7-family-instances", family_singles(), false, &oracle);
     ctx.enumerate("S3-doubling-pairs", doubling_cases(), false, &oracle);
-    ctx.search("F8-hostile-histories", ctx.n(150_000, 4_000_000), &gen::hostile_case, &oracle);
+    ctx.search("F8-hostile-histories", ctx.n(200_000, 15_000_000), &gen::hostile_case, &oracle);
     let c = StreamCfg::small(Mix { fixed: 1, v9: 3, ipfix: 3 });
-    ctx.search("F8-conformant-histories", ctx.n(40_000, 1_000_000), &move || gen::conformant_case(c, BuildOpts::WIDE), &oracle);
+    ctx.search("F8-conformant-histories", ctx.n(50_000, 4_000_000), &move || gen::conformant_case(c, BuildOpts::WIDE), &oracle);
     let big = StreamCfg { max_recs: 60, max_sets: 8, pkts_per_call: (2, 6), ..c };
-    ctx.search("F8-larger-conformant", ctx.n(3_000, 100_000), &move || gen::conformant_case(big, BuildOpts { count_by_flowsets: true, ..BuildOpts::WIDE }), &oracle);
+    ctx.search("F8-larger-conformant", ctx.n(3_000, 300_000), &move || gen::conformant_case(big, BuildOpts { count_by_flowsets: true, ..BuildOpts::WIDE }), &oracle);
     ctx.put_extra(
         "observed_max_ratios",
         serde_json::json!({
